@@ -433,6 +433,13 @@ func (pConn *PFCPConn) handleSessionModificationRequest(msg message.Message) (me
 		return sendError(ErrWriteToDatapath)
 	}
 
+	// a removed PDR no longer needs the F-TEID that was chosen for it
+	for _, p := range delPDRs {
+		if p.UPAllocateFteid {
+			upf.fteidGenerator.FreeID(p.tunnelTEID)
+		}
+	}
+
 	err := pConn.store.PutSession(session)
 	if err != nil {
 		logger.PfcpLog.Errorf("failed to put PFCP session to store: %v", err)
